@@ -62,6 +62,13 @@ pub fn generate(seed: u64) -> Case {
     for _ in 0..r.below(3) {
         lex.push('\n');
     }
+    // half of the lexer files start with a %grmtools section (on one line or spread over several)
+    if r.chance(50) {
+        lex.push_str(if r.chance(50) { "%grmtools{lexerkind: LRNonStreamingLexer}\n" } else { "%grmtools {\n    lexerkind: LRNonStreamingLexer,\n    !case_insensitive,\n    size_limit: 10485760,\n}\n" });
+        for _ in 0..r.below(3) {
+            lex.push('\n');
+        }
+    }
     lex.push_str("%%\n");
     let mut lnames: Vec<&String> = both.iter().chain(only_l.iter()).collect();
     for i in (1..lnames.len()).rev() {
